@@ -86,6 +86,16 @@ type thread struct {
 	what   string
 	resume chan resume
 	calls  int
+	// yields > 0: this thread was aborted as a deadlock victim (and sent back into the ledger's
+	// retry loop) and no OTHER thread has completed a step since. Fairness (Musuvathi & Qadeer,
+	// "Fair stateless model checking"): a retry loop is a yield; a thread that has yielded is not
+	// scheduled while another thread can run. Without this the default schedule is the unfair
+	// one — the victim retries at once, re-takes its row lock before the waiter it unblocked has
+	// moved, deadlocks again — and every branch unrolls to the horizon. What is given up: the
+	// schedules in which a victim barges in front of the waiter it has just unblocked (possible
+	// on a real server only if the woken backend is not scheduled for a whole transaction's
+	// worth of statements). Which member of a cycle is the victim stays a free choice.
+	yields int
 }
 
 // Point is one scheduling decision.
@@ -103,6 +113,7 @@ type Run struct {
 	Points      []Point
 	Preemptions int
 	Deadlocks   int
+	Blocks      int // lock waits met during the execution
 	HorizonHit  bool
 	Stuck       string // non-empty: threads blocked for ever without a cycle
 	Steps       int
@@ -119,6 +130,7 @@ type Exec struct {
 	commits []int // thread id of every COMMIT, in execution order
 	horizon int
 	timeout time.Duration
+	blocks  int
 }
 
 func NewExec(db *pgsim.DB, n int) *Exec {
@@ -255,6 +267,7 @@ func (e *Exec) Execute(ctx context.Context, bodies []func(ctx context.Context), 
 		}
 		if victimMode {
 			run.Deadlocks++
+			t.yields++
 			t.state = tsRunning
 			t.resume <- resume{err: deadlockErr()}
 		} else {
@@ -268,6 +281,15 @@ func (e *Exec) Execute(ctx context.Context, bodies []func(ctx context.Context), 
 			e.abandon()
 			break
 		}
+		if !victimMode && ev.kind != evBlocked {
+			// this thread completed a step (it did not merely wake up to block again): the
+			// others' yields are no longer "in a row"
+			for _, o := range e.threads {
+				if o.id != tid {
+					o.yields = 0
+				}
+			}
+		}
 		e.apply(*ev)
 	}
 	done := make(chan struct{})
@@ -279,6 +301,7 @@ func (e *Exec) Execute(ctx context.Context, bodies []func(ctx context.Context), 
 			run.Stuck = "thread goroutines did not exit"
 		}
 	}
+	run.Blocks = e.blocks
 	return run
 }
 
@@ -301,6 +324,7 @@ func (e *Exec) apply(ev event) {
 	case evPoint:
 		t.state, t.what = tsAtPoint, ev.what
 	case evBlocked:
+		e.blocks++
 		t.state, t.wait, t.what = tsBlocked, ev.wait, ev.what
 	case evFinished:
 		t.state = tsDone
@@ -328,11 +352,19 @@ func (e *Exec) enabled(running int) ([]int, bool) {
 		}
 		return false
 	}
-	if running >= 0 && ready(e.threads[running]) {
+	// fairness: a thread that has yielded stands back while somebody else can run
+	fairOther := false
+	for _, t := range e.threads {
+		if t.yields == 0 && ready(t) {
+			fairOther = true
+		}
+	}
+	eligible := func(t *thread) bool { return ready(t) && (t.yields == 0 || !fairOther) }
+	if running >= 0 && eligible(e.threads[running]) {
 		add(running)
 	}
 	for _, t := range e.threads {
-		if ready(t) {
+		if eligible(t) {
 			add(t.id)
 		}
 	}
